@@ -75,6 +75,56 @@ theorem in_order_each_node_once (isList : Nat → Bool) (t : Tree) (h : Heap) (p
   obtain ⟨out, it', h1, h2⟩ := in_order_iterator_correct isList t h p it0 g hr hd hg
   exact ⟨out, it', h1, by rw [h2]; exact hd, by rw [h2]; intro i; rfl⟩
 
+/-! ## pre-order -/
+
+/-- **Morris pre-order traversal, continuation form**: as `morris_in_continuation`, for `pre_order_iterator`;
+    the call that leaves `t` arrives at `k` with `f'` loop iterations left, at most `size t` fewer than `g`. -/
+theorem morris_pre_continuation (g : Nat) (τ : Nat → Bool) (t : Tree) (k : Ptr) (h : Heap) (m f : Nat)
+    (hg : size t + 2 ≤ g) (hf : t ≠ .nil → 1 ≤ f) (hd : Distinct t)
+    (hk : ∀ a, k = some a → a ∉ inorder t) (hr : ReprK τ h t k) (hτ : ∀ i, i ∈ inorder t → τ i = false) :
+    ∃ f', (t = .nil → f' = f) ∧ (t ≠ .nil → g ≤ f' + size t) ∧
+      preRun g (size t + (m + 1)) f h (rootK t k) = prepend (preorder t) (preRun g (m + 1) f' h k) :=
+  morris_pre g τ t k h m f hg hf hd hk hr hτ
+
+/-- **Pre-order iteration is correct and restores the tree, for every shape**: `bintree_iterate_pre_order` +
+    `bintree_next` until NULL returns exactly `preorder t` and the final heap is the initial heap. -/
+theorem pre_order_iterator_correct (isList : Nat → Bool) (t : Tree) (h : Heap) (p : Ptr) (it0 : Iter) (g : Nat)
+    (hr : Repr h t p) (hd : Distinct t) (hg : 2 * size t + 2 ≤ g) :
+    ∃ out it', iterateAll isList g .preOrder h it0 p = .ok (out, h, it') ∧ out.map Prod.fst = preorder t := by
+  obtain ⟨rfl, hr⟩ := hr
+  obtain ⟨f', hf1, hf2, hrun⟩ := morris_pre g (fun _ => false) t none h (g - size t - 1) g (by omega)
+    (fun _ => by omega) hd (by intro a ha; cases ha) hr (fun _ _ => rfl)
+  have hcalls : size t + (g - size t - 1 + 1) = g := by omega
+  rw [hcalls, rootK_none] at hrun
+  have hf' : 1 ≤ f' := by
+    by_cases ht : t = .nil
+    · have := hf1 ht; omega
+    · have := hf2 ht; omega
+  obtain ⟨f'', rfl⟩ : ∃ f'', f' = f'' + 1 := ⟨f' - 1, by omega⟩
+  have hend : preRun g (g - size t - 1 + 1) (f'' + 1) h none = .ok ([], h) := by
+    simp [preRun, preOrderLoop]
+  rw [hend] at hrun
+  simp only [prepend, List.append_nil] at hrun
+  obtain ⟨out', it', hdr, hm⟩ := drain_of_preRun isList g g g h (root t) { it0 with next := .preOrder, curr := root t }
+    (preorder t) h rfl hrun
+  refine ⟨out', it', ?_, hm⟩
+  simp only [iterateAll, iterate, iteratePreOrder, preOrderIterator]
+  cases hl : preOrderLoop g g h (root t) with
+  | error e => rw [hl] at hdr; simp at hdr
+  | ok res =>
+    obtain ⟨r, h1, c1⟩ := res
+    rw [hl] at hdr
+    simpa using hdr
+
+/-- each node exactly once -/
+theorem pre_order_each_node_once (isList : Nat → Bool) (t : Tree) (h : Heap) (p : Ptr) (it0 : Iter) (g : Nat)
+    (hr : Repr h t p) (hd : Distinct t) (hg : 2 * size t + 2 ≤ g) :
+    ∃ out it', iterateAll isList g .preOrder h it0 p = .ok (out, h, it') ∧
+      (out.map Prod.fst).Nodup ∧ ∀ i, i ∈ out.map Prod.fst ↔ i ∈ inorder t := by
+  obtain ⟨out, it', h1, h2⟩ := pre_order_iterator_correct isList t h p it0 g hr hd hg
+  refine ⟨out, it', h1, ?_, by rw [h2]; intro i; exact mem_preorder t i⟩
+  rw [h2]; exact nodup_preorder t hd
+
 /-- non-vacuity: the 3-node tree `1 ← 0 → 2` held by a concrete heap -/
 def exHeap : Heap := fun i =>
   if i = 0 then some ⟨some 1, false, some 2⟩ else if i = 1 ∨ i = 2 then some ⟨none, false, none⟩ else none
@@ -86,5 +136,8 @@ example : Repr exHeap exTree (some 0) ∧ Distinct exTree := by
 
 example : (iterateAll (fun _ => false) 8 .inOrder exHeap default (some 0)).toOption.map (fun r => r.1.map Prod.fst)
     = some [1, 0, 2] := by decide
+
+example : (iterateAll (fun _ => false) 8 .preOrder exHeap default (some 0)).toOption.map (fun r => r.1.map Prod.fst)
+    = some [0, 1, 2] := by decide
 
 end Librfn.C11
